@@ -28,10 +28,11 @@ def _strict(f):
 FUNCS = {'SUM': _strict(lambda *a: sum(a)), 'ABS': _strict(lambda x: abs(x)), 'ID': lambda x: x, 'EV': lambda t: EV_TEXTS[t]}
 
 int_leaf = st.one_of(st.sampled_from(['2', '3', '5', '7', '11', '13', '17', '19', '23', '1', '4', '6', '8', '9', '10', '100']).map(lambda s: ['num', s]),
+                     st.sampled_from(['9007199254740993', '9007199254740992', '12345678901234567891', '12345678901234567890', '007', '18014398509481985']).map(lambda s: ['num', s]),
                      st.sampled_from(['v_a', 'v_b', 'v_d', 'v_f']).map(lambda n: ['var', n]),
                      st.sampled_from(['B2', 'C3', 'AA10', '$B$2', 'c3']).map(lambda n: ['cell', n]))
 leaf = st.one_of(int_leaf, int_leaf,
-                 st.sampled_from(['0.5', '0.25', '0.75', '1.5', '2.25', '0.125', '.5', '10.0']).map(lambda s: ['dec', s]),
+                 st.sampled_from(['0.5', '0.25', '0.75', '1.5', '2.25', '0.125', '.5', '10.0', '.05', '.007', '.0625', '1.05', '0.0078125', '.50']).map(lambda s: ['dec', s]),
                  st.sampled_from(['v_c', 'v_e']).map(lambda n: ['var', n]), st.just(['cell', 'D4']))
 
 EV_TEXTS = {'1+1': 2, '2*3': 6, '10-3-2': 5, '7': 7, '(1+2)*3': 9, '8/2/2': 2.0, '-3*2': -6}
